@@ -36,6 +36,12 @@ CHECKS = {
     "C10": ("proof",
             "Lean theorems C10_* (bit/Gray round trips for all widths, one-bit adjacency of successive Gray codes, grid formula, endpoints, box, injectivity, encode∘decode = id, decode∘encode nearest grid point, fixed output length, bits-from-step) over exact rationals; tied to SamplingGrid/GrayCode by exhaustive correspondence over all bit strings of small widths and all small bits-per-variable vectors.",
             "§6 C10", "Lean 4 proof + exact model/implementation correspondence (exhaustive small widths)", "np.rint ties and float rounding of left+h*k observed at 1e-9, not proved"),
+    "C14": ("proof",
+            "Lean theorems C14_* over Rat: the SelfC* update keeps a strictly positive distribution of the same length with every entry ≥ thr/S, 1 ≤ S ≤ 1+z·thr+K/iters (documented rule entry by entry; invariant over any number of generations); the fittest-operator choice; the PDP* update is a distribution with every entry ≥ thr exactly and unused operators at the floor; draws land in the support / the interval of the cumulative distribution; the next generation's operators are drawn from the UPDATED distribution. Tied by wrappers around _adapt/_choice_operators/_get_new_individ_g of live SelfCGA/SelfCGP/PDPGA/PDPGP: every generation's update recomputed by the model at 1e-9, draws recomputed from mirrored uniforms, the triple applied to each individual compared with the one drawn for it.",
+            "§6 C14", "Lean 4 proof (exact rationals) + per-generation trace validation", "probabilities are doubles: the sum is 1 up to rounding; group-mean ties compared on integer-valued fitness only"),
+    "C15": ("proof",
+            "Lean theorems C15_* over Rat: truncated draws land in (0,1] / [0,1] / (0,5/L] for every draw stream; jDE ranges and acceptance rule; weighted Lehmer and arithmetic means stay in range (0 for a vanishing denominator); memory-cell updates preserve the ranges; the ring buffer writes exactly the cyclic successor cell and the range invariant holds for any number of generations incl. wrap-around; archive bound and content. Tied by wrappers around _get_new_population of live SHADE/SHAGA/jDE: per generation the written cell is recomputed by the model at 1e-9, ranges/ring/archive/acceptance are checked on the observed state.",
+            "§6 C15", "Lean 4 proof (exact rationals) + per-generation trace validation", "Cauchy/normal samplers are parameters: only their ranges after truncation are used"),
     "C16": ("proof",
             "Lean theorems C16_* (any strictly increasing cut points partition; truncated perturbed linspace points are strictly increasing from 0 to pop; n_jobs normalisation lands in [1,pop], 0 rejected; chunked row-wise evaluation reassembled by chunk index equals whole evaluation for every arrival order); tied to _get_n_jobs/_split_population by exact correspondence over ALL (pop_size, n_jobs) pairs up to a bound and by runs with n_jobs>1 under forced worker reorderings.",
             "§6 C16", "Lean 4 proof of the partition logic + exhaustive correspondence + differential runs (schedules partial)", "joblib returning results in submission order is modelled and observed under forced completion reorderings, not proved"),
